@@ -224,6 +224,11 @@ def plan_c03(c):
     k, _ = tv(c, "short", "Trace_Front", "Trace_Front_C03.cfg", "C03 totality, exhaustive short strings", shard=2000)
     p, _ = tv(c, "poll", "Trace_Poll", "Trace_Poll_C03.cfg", "C03 buffer discipline / no spinning at the transport boundary",
               shard=50000, per_run=True)
+    # the same drivers in the debug profile: overflow checks, debug assertions and std's unsafe-precondition checks are
+    # on, so arithmetic overflow is a panic (= data) and a violated unsafe precondition aborts the harness (= violation)
+    d1, _ = tv(c, "dec3", "Trace_Front", "Trace_Front_C03.cfg", "C03 totality (debug build)", profile="debug")
+    d2, _ = tv(c, "poll", "Trace_Poll", "Trace_Poll_C03.cfg", "C03 transport boundary (debug build)", profile="debug",
+               shard=50000, per_run=True)
     if c.tier == "thorough":
         # memory-safety clause, exploration strength: the same drivers executed under Miri
         f1 = c.miri_record("dec3")
